@@ -57,7 +57,8 @@ from gen import prune_c08 as G
 ID = "C08"
 LEVEL = "exploration"
 
-WATCHDOG = 60  # seconds, pruned compilation
+WATCHDOG = 60  # seconds of CPU time, pruned compilation
+WALL_FACTOR = 5  # ... and 5 x 60 s of wall-clock time
 MARGIN = 1e-6  # relative to the region's scale: closer to the boundary = not judged
 ONE = 1.0 - 2.0**-53
 
@@ -532,6 +533,10 @@ def member(shape, p):
 # compilation, observation of the pruning passes
 # =========================================================================================
 def _alarm(signum, frame):
+    # re-arm first: an exception raised inside a __del__ or a callback is swallowed by the
+    # interpreter, the next tick then raises again
+    signal.setitimer(signal.ITIMER_PROF, 1.0)
+    signal.alarm(1)
     raise _Hang()
 
 
@@ -581,23 +586,31 @@ def compile_pair(text, mode2D):
     old_verb = errors.verbosityLevel
     errors.verbosityLevel = 1
     buf = io.StringIO()
+    # watchdog: WATCHDOG seconds of CPU time of this process (immune to machine load), and
+    # WALL_FACTOR times as much wall-clock time (a hang that does not burn CPU)
     old_handler = signal.signal(signal.SIGALRM, _alarm)
+    old_prof = signal.signal(signal.SIGPROF, _alarm)
     t0 = time.time()
     translator.usePruning = True
     try:
-        signal.alarm(WATCHDOG)
         try:
+            signal.setitimer(signal.ITIMER_PROF, WATCHDOG)
+            signal.alarm(WATCHDOG * WALL_FACTOR)
             with contextlib.redirect_stdout(buf):
                 out["P"] = scenic.scenarioFromString(text, mode2D=mode2D)
         finally:
+            signal.setitimer(signal.ITIMER_PROF, 0)
             signal.alarm(0)
     except _Hang:
         out["hang"] = True
     except Exception as e:
         out["p_error"] = e
     finally:
+        signal.setitimer(signal.ITIMER_PROF, 0)
+        signal.alarm(0)
         translator.usePruning = old
         signal.signal(signal.SIGALRM, old_handler)
+        signal.signal(signal.SIGPROF, old_prof)
         errors.verbosityLevel = old_verb
         for nm, f in saved.items():
             setattr(pruning, nm, f)
@@ -1062,7 +1075,7 @@ def check_program(item):
 
         # ---- (4), (5) --------------------------------------------------------------------
         if cp["hang"]:
-            viol(f"hang:{tag}", f"compilation with pruning did not finish within {WATCHDOG} s; passes completed: {reached}")
+            viol(f"hang:{tag}", f"compilation with pruning did not finish within {WATCHDOG} s of CPU time ({WATCHDOG * WALL_FACTOR} s wall); passes completed: {reached}")
         elif cp["p_error"] is not None:
             e = cp["p_error"]
             from scenic.core.errors import InvalidScenarioError
@@ -1169,6 +1182,7 @@ def run(ctx):
     params = PARAMS[ctx.tier]
     specs = G.programs(ctx.tier)
     items = ctx.rotate([(s, params) for s in specs])
+    items.sort(key=lambda it: -it[0].get("cost", 1))  # stable: watchdog candidates first
     fam = {}
     stage_fired = {s: 0 for s in STAGES}
     dist_fired = 0
